@@ -98,8 +98,8 @@ func c05Reference(sc *c13Scenario) (lines []string, states []string, v *Violatio
 	}
 	pos := len(conn.Written())
 	for _, e := range sc.Events {
-		if e.Kind == "reconnect" {
-			continue // C13's subject; C05 sessions stay on one connection
+		if e.Kind == "reconnect" || e.Kind == "appwho" {
+			continue // C13's subjects; C05 sessions stay on one connection and make no requests of their own
 		}
 		ls := applyNetEvent(n, e)
 		if len(ls) == 0 {
